@@ -24,6 +24,56 @@ CLAIMS = {
     note="Bounded model (3-4 handles, 4-unit regions, <=3 regions); the allocator hooks report the allocator's own "
          "bookkeeping; byte-level integrity is observed by the harness through the public code/exec pointers.",
     technique="TLA+ spec + TLC model checking; behaviour replay into liborc; TLC trace validation against CodeMemAbs"),
+ "C16": dict(
+    text="TLC exhaustively model-checks OrcSystem (programs, owned and taken code objects, ghost heap of resources): "
+         "NoLeak, NoUseAfterFree, TakenOutlives.  Every edge of the 1-program graph plus seeded simulations of the "
+         "2-program model are replayed through the real API in fresh processes of the ASan/LSan build; the recorded "
+         "Api traces are validated by TLC against Trace_OrcSystem (legal-sequence guards, code/chunk ownership after "
+         "every call, walker count of used chunks = chunks the specification says are held, LeakSanitizer verdict, "
+         "no crash).  TLC-generated cyclic behaviours are repeated thousands of times: heap and regions must not grow.",
+    design_ref="DESIGN.md section 6 C16",
+    note="Bounded model (2 programs, 1-2 taken codes, 4 program shapes); ASan/LSan and mallinfo2 are observers inside "
+         "the replay; programs are one to twelve instructions long.",
+    technique="TLA+ spec + TLC model checking; behaviour replay into liborc (ASan/LSan); TLC trace validation"),
+ "C05": dict(
+    text="(A) OrcSystem's CompileOutcome (exits E0..E9) with FatalNoCode / SuccessCallable / OtherRunnable model-checked "
+         "over all histories, a negative variant refuted; behaviours ending in a compile replayed through the API and "
+         "the traces validated with the class<=>post-state conjuncts.  (B) CompilerTables models how construction and "
+         "the rewrite passes fill insns[100], vars[96]: InBounds holds with the capacity checks and is refuted without; "
+         "the reachable boundary programs (below/at/above each capacity), every opcode in 4-6 operand forms, heavy "
+         "opcode chains and variable-count overruns are compiled for all 8 registered targets in children of the "
+         "ASan/bounds build under a watchdog; every Compile event is validated against Trace_Compile.",
+    design_ref="DESIGN.md section 6 C05",
+    note="Termination is a 20 s watchdog (normal compile: ~1 ms); non-native back ends are compiled, never executed; "
+         "flag subsets other than the default are exercised by C11.",
+    technique="TLA+ specs (OrcSystem, CompilerTables) + TLC; TLC-generated boundary programs compiled under sanitizers; "
+              "TLC trace validation of compile events"),
+ "C17": dict(
+    text="Determinism ghost `image` in Trace_OrcSystem: the first successful compile of a key (program, target) fixes "
+         "the digests of machine code and listing; every later compile of that key must reproduce them, whatever the "
+         "TLC-generated history in between (other compiles, frees, resets, take_code; edge cover of the 1-program "
+         "OrcSystem graph over all 8 registered targets + seeded simulations of the 2-program model), in whatever "
+         "process (placement varies), under ORC_DEBUG 0/3/6; run events must keep giving the right result.",
+    design_ref="DESIGN.md section 6 C17",
+    note="Digests are 64-bit FNV-1a of OrcCode.code[0..code_size) and of the listing text; programs are the four "
+         "shapes of OrcSystem; flags are each target's defaults.",
+    technique="TLA+ spec (OrcSystem) + TLC-generated histories replayed into liborc; TLC trace validation with a "
+              "history-independence ghost variable"),
+ "C06": dict(
+    text="TLC model-checks ExecMem (the chain of attempts for a region request, every system call a step that can "
+         "fail) over all fault plans with <= 2 failing calls during the init probe and the first compile: Balanced, "
+         "SuccessIffMapped, NoWildSuccess, termination; two broken variants are refuted.  Every plan is replayed with "
+         "a --wrap shim failing exactly those calls x ORC_CODE modes x backup function x rule/no-rule programs x "
+         "attached/code-only executors, plus persistent class faults with a 30-round compile churn.  TLC validates the "
+         "recorded traces: Trace_OrcSystem (right results on every path, backup called exactly once iff it is the "
+         "entry point, native entry only with code memory, no crash or hang) and Trace_ExecMem (descriptors used only "
+         "while open and closed before the call returns, failed attempts unmap what they mapped, no descriptor growth).",
+    design_ref="DESIGN.md section 6 C06",
+    note="Faults are injected at the libc boundary of the statically linked liborc; register exhaustion as a cause "
+         "of fallback is covered by C05's boundary programs; the oracle for run results is the harness's own "
+         "computation of the two program shapes.",
+    technique="TLA+ spec (ExecMem) + TLC enumeration of fault plans; fault-injection replay; TLC trace validation "
+              "against OrcSystem and ExecMem"),
 }
 
 NOT_APPLICABLE = {
